@@ -181,10 +181,11 @@ ctl("r_is_matches", IS, "                    match self {\n                     
     "EnumIs predicates use matches!")
 ctl("r_from_repr_nested_ok", FR, "        arms.push(quote! {v if v == #const_var_ident => ::core::option::Option::Some(#name::#ident #params)});", "        arms.push(quote! {v if #const_var_ident == v => ::core::option::Option::Some(#name::#ident #params)});",
     "from_repr guard written as `CONST == v`")
-ctl("r_from_str_no_return", FS, "            ::core::result::Result::Ok(match s {\n                #(#standard_match_arms)*\n                _ => return #default,\n            })", "            match s {\n                #(#ok_arms)*\n                _ => #default,\n            }",
+ctl("r_from_str_no_return", FS, "            ::core::result::Result::Ok(match s {\n                #(#standard_match_arms)*\n                _ => return #default,\n            })", "            match s {\n                #(#standard_match_arms)*\n                _ => #default,\n            }",
     "from_str wraps every arm in Ok(..) instead of wrapping the match and returning from the wildcard",
-    helpers=[(FS, "    let standard_match_body = if standard_match_arms.is_empty() {", "    let ok_arms: Vec<TokenStream> = standard_match_arms.iter().map(|a| { let mut it = a.clone().into_iter().collect::<Vec<_>>(); let _ = &mut it; wrap_ok(a) }).collect();\n    let standard_match_body = if standard_match_arms.is_empty() {"),
-             (FS, "#[rustversion::before(1.34)]\nfn try_from_str(", "fn wrap_ok(arm: &TokenStream) -> TokenStream {\n    // `pat [if guard] => value,`  ->  `pat [if guard] => Ok(value),`\n    let toks: Vec<proc_macro2::TokenTree> = arm.clone().into_iter().collect();\n    let mut split = 0;\n    for i in 0..toks.len().saturating_sub(1) {\n        if let (proc_macro2::TokenTree::Punct(a), proc_macro2::TokenTree::Punct(b)) = (&toks[i], &toks[i + 1]) {\n            if a.as_char() == '=' && b.as_char() == '>' && a.spacing() == proc_macro2::Spacing::Joint { split = i; break; }\n        }\n    }\n    let head: TokenStream = toks[..split].iter().cloned().collect();\n    let mut tail: Vec<proc_macro2::TokenTree> = toks[split + 2..].to_vec();\n    if let Some(proc_macro2::TokenTree::Punct(p)) = tail.last() { if p.as_char() == ',' { tail.pop(); } }\n    let tail: TokenStream = tail.into_iter().collect();\n    quote! { #head => ::core::result::Result::Ok(#tail), }\n}\n\n#[rustversion::before(1.34)]\nfn try_from_str(")])
+    helpers=[(FS, "                    standard_match_arms.push(quote! { s if s.eq_ignore_ascii_case(#serialization) => #name::#ident #params, });", "                    standard_match_arms.push(quote! { s if s.eq_ignore_ascii_case(#serialization) => ::core::result::Result::Ok(#name::#ident #params), });"),
+             (FS, "                    quote! { #serialization => #name::#ident #params, }\n                } else {\n                    quote! { s if s.eq_ignore_ascii_case(#serialization) => #name::#ident #params, }\n                });",
+              "                    quote! { #serialization => ::core::result::Result::Ok(#name::#ident #params), }\n                } else {\n                    quote! { s if s.eq_ignore_ascii_case(#serialization) => ::core::result::Result::Ok(#name::#ident #params), }\n                });")])
 ctl("r_table_field_prefix", TB, "        let snake_case = format_ident!(\"_{}\", snakify(&pascal_case.to_string()));", "        let snake_case = format_ident!(\"slot_{}\", snakify(&pascal_case.to_string()));",
     "EnumTable slot fields get another private prefix")
 ctl("r_count_loop", EC, "        Data::Enum(v) => v.variants.iter().try_fold(0usize, |acc, v| {\n            if v.get_variant_properties()?.disabled.is_none() {\n                Ok::<usize, syn::Error>(acc + 1usize)\n            } else {\n                Ok::<usize, syn::Error>(acc)\n            }\n        })?,",
